@@ -14,10 +14,10 @@ use core::time::Duration;
 #[derive(Clone, Copy, Debug, PartialEq, Eq)]
 pub enum TransactionStatus { Submitted(u64), Success(u64), PreConfirmationSuccess(u64), SqueezedOut(u64), PreConfirmationSqueezedOut(u64), Failure(u64), PreConfirmationFailure(u64) }
 static mut NOW: u64 = 0;
-#[derive(Clone, Copy, Debug, PartialEq, Eq, PartialOrd, Ord)] pub struct Instant(pub u64); // whole seconds (no sub-second arithmetic: Duration::from_millis would put a 64-bit division into every query)
+#[derive(Clone, Copy, Debug, PartialEq, Eq, PartialOrd, Ord)] pub struct Instant(pub u64); // half seconds (sub-second parts exist, but no 64-bit division by 1000 as Duration::from_millis would need)
 impl Instant {
     pub fn now() -> Instant { Instant(unsafe { NOW }) }
-    pub fn duration_since(&self, earlier: Instant) -> Duration { Duration::from_secs(self.0.saturating_sub(earlier.0)) }
+    pub fn duration_since(&self, earlier: Instant) -> Duration { { let d = self.0.saturating_sub(earlier.0); Duration::new(d >> 1, ((d & 1) as u32) * 500_000_000) } }
 }
 
 /// CONTRACT of std HashMap, exact for `probe`; other keys: lookups answer absent, writes are counted
@@ -83,7 +83,7 @@ fn any_manager(p: TxId, now: u64) -> TxStatusManager {
     let mut i = 0;
     while i < 3 { if i < n { let t: u64 = kani::any(); kani::assume(t <= now); items[i] = Some((Instant(t), if kani::any() { p } else { TxId(p.0 ^ 1) })); } i += 1; }
     TxStatusManager { data: Data { pruning_queue: VecDeque { items, n }, non_prunable_statuses: HashMap { probe: p, slot: non_prunable, other_writes: 0 }, prunable_statuses: HashMap { probe: p, slot: prunable, other_writes: 0 } },
-        ttl: Duration::from_secs(kani::any::<u32>() as u64) }
+        ttl: { let h: u64 = kani::any::<u32>() as u64; Duration::new(h >> 1, ((h & 1) as u32) * 500_000_000) } }
 }
 
 // Publishing a status for ANY transaction: the published transaction answers its new status; another transaction P keeps
@@ -100,7 +100,7 @@ fn c23_register_status() {
     let before = m.status(&p).copied();
     let before_submitted = m.data.non_prunable_statuses.slot;
     let before_prunable = m.data.prunable_statuses.slot;
-    let ttl_ms = m.ttl.as_secs();
+    let ttl_ms = m.ttl.as_secs() * 2 + (if m.ttl.subsec_nanos() >= 500_000_000 { 1 } else { 0 }); // in half seconds
     let same: bool = kani::any();
     let id = if same { p } else { TxId(p.0 ^ 1) };
     let s = any_status();
@@ -133,7 +133,7 @@ fn c23_fresh_status_survives_until_ttl() {
     unsafe { NOW = t0; }
     let mut m = any_manager(p, t0);
     kani::assume(m.data.pruning_queue.n <= 2);
-    let ttl_ms = m.ttl.as_secs();
+    let ttl_ms = m.ttl.as_secs() * 2 + (if m.ttl.subsec_nanos() >= 500_000_000 { 1 } else { 0 }); // in half seconds
     let s = any_prunable_status();
     m.register_status(p, s);
     let dt: u64 = kani::any();
